@@ -82,6 +82,41 @@ theorem map_new_key_ok_iff (s : CMap K V A) (d : Dot A) (k : K) (o : VOp) (habs 
   · intro h; exact h.2
   · intro h; exact ⟨by omega, h⟩
 
+/-- **the defect F7 in general form** (not only a witness): at EVERY Map state, for every actor that has already issued an update
+(its entry in the map clock is ≥ 1) and every key the replica does not hold, the update the API itself builds
+(`m.update(k, m.read_ctx().derive_add_ctx(a), …)`: dot = the actor's next dot) is REJECTED by `validate_op` – at its own origin, whatever the
+value type, although it skips nothing.  (`hv`: the nested value accepts the nested op on the default value – true of every API-built
+nested op.) -/
+theorem map_second_key_always_rejected (s : CMap K V A) (a : A) (k : K) (o : VOp) (habs : s.entries.get? k = none)
+    (hpos : 1 ≤ s.clock.get a) (hv : ops.validateOp ops.default o = true) :
+    CMap.validateOp ops toNat s (.up (s.readCtx.deriveAddCtx a).dot k o) ≠ .ok () := by
+  have hd : (s.readCtx.deriveAddCtx a).dot = ⟨a, s.clock.get a + 1⟩ := rfl
+  rw [hd]
+  intro h
+  have := (map_new_key_ok_iff ops toNat s ⟨a, s.clock.get a + 1⟩ k o habs rfl hv).mp h
+  simp only at this
+  omega
+
+/-- … with the exact error: `SourceOrder(a, 1 .. clock[a] + 1)` computed against the EMPTY entry clock -/
+theorem map_second_key_error (s : CMap K V A) (a : A) (k : K) (o : VOp) (habs : s.entries.get? k = none)
+    (hpos : 1 ≤ s.clock.get a) :
+    CMap.validateOp ops toNat s (.up (s.readCtx.deriveAddCtx a).dot k o) =
+      .error (.sourceOrder (toNat a) 1 (s.clock.get a + 1)) := by
+  have hd : (s.readCtx.deriveAddCtx a).dot = ⟨a, s.clock.get a + 1⟩ := rfl
+  rw [hd]
+  have h1 : s.clock.validateOp ⟨a, s.clock.get a + 1⟩ = .ok () := by
+    unfold VClock.validateOp; simp only; split
+    · omega
+    · rfl
+  have h2 : (∅ : VClock A).validateOp ⟨a, s.clock.get a + 1⟩ = .error ⟨a, 1, s.clock.get a + 1⟩ := by
+    unfold VClock.validateOp
+    have : (∅ : VClock A).get a = 0 := by simp
+    simp only [this]
+    split
+    · rfl
+    · omega
+  simp only [CMap.validateOp, h1, habs, Option.getD_none, h2, CMap.showRange]
+
 end Crdt.C16
 
 namespace Crdt.Witness
